@@ -822,11 +822,19 @@ func (ex *Exec) rankOf(t *Term) *Term {
 			continue
 		}
 		ex.addPC(TEq(eq, TEq(r, o.rank)))
+		// refinement: the order agrees with the real one on the first character
+		// (the empty string is smallest), so that most models carry a genuine
+		// lexicographic order and replay natively
+		// (asserted only in assertion/model queries, like the printable constraint)
+		ft, fo := firstCode(t), firstCode(o.term)
+		ex.side = append(ex.side, TImplies(TLt(ft, fo), TLt(r, o.rank)), TImplies(TLt(fo, ft), TLt(o.rank, r)))
 	}
 	ex.ranks[key] = &rankEntry{term: t, rank: r}
 	ex.rankOrder = append(ex.rankOrder, key)
 	return r
 }
+
+func firstCode(t *Term) *Term { return TToCode(TStrAt(t, TInt(0))) }
 
 type rankEntry struct {
 	term, rank *Term
